@@ -22,6 +22,7 @@ func init() {
 }
 
 func checkC20(c *Ctx) {
+	c20Links(c)
 	// errcheck-style baseline: a newly discarded error in the package is a dropped protocol/validation step
 	c.checkErrorDiscipline("errors.no-new-dropped-error", "tools/trim", map[string]string{
 	})
@@ -239,4 +240,114 @@ func checkC20(c *Ctx) {
 	sort.Strings(miss)
 	c.note("review: resolveElemAll has no case for expression kinds with children %v (resolvers among them are resolved as a whole; lists/structs become arcs) — not judged", miss)
 	_ = fmt.Sprint
+}
+
+// c20Links: (1) every leaf conjunct with a source position gets its resolver
+// links — they keep what the conjunct *refers to*, so they are needed for
+// ignored conjuncts (patterns, `?`/`!` fields, disjunction branches) as well.
+// (2) state shared by the before/after callbacks of an ast.Walk must be
+// restored by the inverse operation (counter --, stack pop): the constructs
+// they track nest (a call inside a call's arguments), so a boolean reset on
+// leaving the inner one forgets the outer one.
+func c20Links(c *Ctx) {
+	f := c.fn("tools/trim", "(*trimmerV3).findRedundancies")
+	g := c.graph(f)
+	info := f.Info()
+	head, _, _ := g.rangeLoop(func(rs *ast.RangeStmt) bool { return strings.HasSuffix(exprString(rs.X), ".LeafConjuncts()") })
+	links := map[int]bool{}
+	for id, call := range g.callNodes("tools/trim.(*trimmerV3).linkResolvers") {
+		if len(call.Args) == 2 {
+			links[id] = true
+		}
+	}
+	start := -1
+	for id := range g.callNodes("tools/trim.(*trimmerV3).getNodeMeta") {
+		if head >= 0 && g.reachableFrom(head)[id] && (start < 0 || g.pos(id) < g.pos(start)) {
+			// the first metadata lookup of the loop body: the conjunct has a source
+			if as, ok := g.Nodes[id].N.(*ast.AssignStmt); ok && len(as.Lhs) == 1 && exprString(as.Lhs[0]) == "nm" {
+				start = id
+			}
+		}
+	}
+	ok := head >= 0 && start >= 0 && len(links) > 0
+	if ok {
+		r := g.reach([]int{start}, func(id int) bool { return links[id] }, nil)
+		ok = !r[head] && !r[g.Exit]
+	}
+	_ = info
+	c.check("walker.resolvers-linked-for-every-conjunct", f.Name, f.Decl.Pos(), ok,
+		"in findRedundancies every leaf conjunct that has a source must reach t.linkResolvers(c, …) before the next conjunct, whether or not the conjunct itself is ignored: the links keep the declarations the conjunct refers to (a pattern `[=~\"^max\"]: >=x` keeps `x: int`)")
+
+	// (2) before/after callbacks of ast.Walk
+	n := 0
+	for _, fn := range c.funcs(c.pkg("tools/trim")) {
+		fi := fn.Info()
+		ast.Inspect(fn.Body, func(x ast.Node) bool {
+			call, isCall := x.(*ast.CallExpr)
+			if !isCall || calleeName(fi, call) != "cue/ast.Walk" || len(call.Args) != 3 {
+				return true
+			}
+			before, ok1 := call.Args[1].(*ast.FuncLit)
+			after, ok2 := call.Args[2].(*ast.FuncLit)
+			if !ok1 || !ok2 {
+				return true
+			}
+			writes := func(l *ast.FuncLit) map[types.Object][]ast.Node {
+				out := map[types.Object][]ast.Node{}
+				ast.Inspect(l.Body, func(y ast.Node) bool {
+					switch s := y.(type) {
+					case *ast.AssignStmt:
+						for _, lh := range s.Lhs {
+							if o := identObj(fi, lh); o != nil && o.Pos() < l.Pos() { // captured
+								out[o] = append(out[o], s)
+							}
+						}
+					case *ast.IncDecStmt:
+						if o := identObj(fi, s.X); o != nil && o.Pos() < l.Pos() {
+							out[o] = append(out[o], s)
+						}
+					}
+					return true
+				})
+				return out
+			}
+			wb, wa := writes(before), writes(after)
+			for o, as := range wa {
+				if len(wb[o]) == 0 {
+					continue
+				}
+				n++
+				okv := true
+				for _, st := range as {
+					switch s := st.(type) {
+					case *ast.IncDecStmt:
+						// inverse of an inc/dec in the before callback
+						inv := false
+						for _, b := range wb[o] {
+							if bi, isID := b.(*ast.IncDecStmt); isID && bi.Tok != s.Tok {
+								inv = true
+							}
+						}
+						okv = okv && inv
+					case *ast.AssignStmt:
+						// x = x[:len(x)-1]  (pop) or x -= k
+						pop := false
+						if len(s.Rhs) == 1 {
+							if se, isSl := ast.Unparen(s.Rhs[0]).(*ast.SliceExpr); isSl && identObj(fi, se.X) == o {
+								pop = true
+							}
+						}
+						if s.Tok == token.SUB_ASSIGN || s.Tok == token.ADD_ASSIGN {
+							pop = true
+						}
+						okv = okv && pop
+					}
+				}
+				c.check("walker.nesting-state-restored-by-inverse", fmt.Sprintf("%s/%s", fn.Name, o.Name()), call.Pos(), okv,
+					"variable "+o.Name()+" is written by both callbacks of ast.Walk: the constructs nest, so leaving one must undo exactly what entering it did (counter decrement, stack pop) — assigning a constant on the way out forgets the enclosing construct")
+			}
+			return true
+		})
+	}
+	c.expect("walker.nesting-state-restored-by-inverse", 2)
 }
